@@ -19,6 +19,14 @@ Definition lang_opt (l : N) : option nat := if N.ltb l 100 then Some (N.to_nat l
 Definition chunk_wl (i : N) : list (list N) :=
   match nth_error xmr_langs (N.to_nat i) with Some L => fst L | None => wl_ev1 end.
 
+(* MnemonicValidator.IsValid: catches ValueError (with its subclasses) and MnemonicChecksumError only *)
+Definition is_valid {A} (r : res A) : res val :=
+  match r with
+  | inl _ => Ok (VBool true)
+  | inr ValueError | inr UnicodeError | inr (LibError MnemonicChecksumError) => Ok (VBool false)
+  | inr e => Err e
+  end.
+
 Definition xmr_encode := MoneroMnemonic.encode xmr_langs xmr_entropy_bit_lens.
 Definition xmr_decode := MoneroMnemonic.decode xmr_langs xmr_word_nums xmr_word_nums_chk words_to_chunk.
 Definition xmr_decode_current :=
@@ -37,6 +45,11 @@ Definition api (ask : string -> list val -> val) : list api_entry := [
       rwords (xmr_encode (N.to_nat l) (negb (N.eqb c 0)) b) | _ => bad_call end);
   ("xmr_decode", fun a => match a with [VN l; VL ws] =>
       match vwords ws with Some w => rb (xmr_decode (lang_opt l) w) | None => bad_call end | _ => bad_call end);
+  ("xmr_is_valid", fun a => match a with [VN l; VL ws] =>
+      match vwords ws with Some w => is_valid (xmr_decode (lang_opt l) w) | None => bad_call end | _ => bad_call end);
+  ("xmr_is_valid_current", fun a => match a with [VN l; VL ws] =>
+      match vwords ws with Some w => is_valid (xmr_decode_current (lang_opt l) w) | None => bad_call end
+      | _ => bad_call end);
   ("xmr_decode_current", fun a => match a with [VN l; VL ws] =>
       match vwords ws with Some w => rb (xmr_decode_current (lang_opt l) w) | None => bad_call end
       | _ => bad_call end)
